@@ -372,6 +372,11 @@ def render(tag, spec, oracles):
     # directories Clean visits: those of files some call addresses
     dirs = sorted(set(suffix_of(c).rsplit('/', 1)[0] for cfgno, c in enumerate(spec['cfgs'], 1)
                       if any(l for _, _, l in per[cfgno])))
+    if spec.get('fresh'):
+        # the directory of the never-written (but registered) file is visited by Clean like any addressed one
+        fd = posixpath.normpath(spec['fresh'][0])
+        if fd not in dirs and any(posixpath.normpath(suffix_of(c).rsplit('/', 1)[0]) == fd for c in spec['cfgs']):
+            dirs = sorted(dirs + [fd])
     for sf in spec['stale_files']:
         if dirs:
             w.add('fsput %s %s' % (hx(dirs[0] + '/' + sf), hx(frame(b'TestElsewhere - 1', b'z'))))
